@@ -279,9 +279,44 @@ def merge_task(seed):
     return nev, fails, {"merge"}
 
 
+def numbering_task(family):
+    """Generated automatic names never collide: every subset of pre-existing odfdo_auto_N names."""
+    fails = []
+    nev = 0
+    pool = [1, 2, 9, 10, 11, 99, 100]
+    for r in range(len(pool) + 1):
+        for subset in itertools.combinations(pool, r):
+            nev += 1
+            doc = new_doc(("template", "text"))
+            for n in subset:
+                doc.insert_style(Style(family, name=f"odfdo_auto_{n}"), automatic=True)
+            st = Style(family)
+            try:
+                name = doc.insert_style(st, automatic=True)
+            except Exception as e:
+                name = f"raises:{type(e).__name__}"
+            existing = {f"odfdo_auto_{n}" for n in subset}
+            bad = None
+            if not isinstance(name, str) or not name or name in existing:
+                bad = ("generated-name-collides", sorted(existing), name)
+            else:
+                found = doc.get_style(family, name)
+                if found is None or found._Element__element is not st._Element__element:
+                    bad = ("another-style-found", name, None if found is None else found.serialize()[:80])
+                elif duplicates(doc):
+                    bad = ("duplicate-style", [], duplicates(doc)[:3])
+            if bad:
+                cls = "existing:" + ("two-digit" if any(n >= 10 for n in subset) else "one-digit") + ("+gap" if subset and max(subset) != len(subset) else "")
+                fails.append({"signature": f"site=Document.insert_style(automatic, unnamed); class={cls}; symptom={bad[0]}",
+                              "replay": {"replay_module": "mc.checks.c13", "history": [["numbering", family, list(subset)]], "oracle": "automatic-name", "expected": str(bad[1]), "actual": str(bad[2])}})
+    return nev, fails, {"numbering"}
+
+
 def dispatch(t):
     if t[0] == "merge":
         return merge_task(t[1])
+    if t[0] == "numbering":
+        return numbering_task(t[1])
     return work(t[1])
 
 
@@ -297,6 +332,7 @@ def run(prop, tier, vseed):
     tasks = [("w", (seed, None)) for seed in DOCS]
     tasks += [("w", (seed, first)) for seed in docs2 for first in reps]
     tasks += [("merge", seed) for seed in DOCS]
+    tasks += [("numbering", fam) for fam in ("paragraph", "text", "table-cell", "graphic")]
     nproc = int(os.environ.get("VERIF_NPROC", "0")) or min(16, os.cpu_count() or 1)
     nev = 0
     failures = []
@@ -325,7 +361,9 @@ def run(prop, tier, vseed):
 def replay(rp):
     hist = rp["history"]
     seed = tuple(hist[0])
-    if len(hist) > 1 and hist[1][0] == "merge":
+    if hist[0][0] == "numbering":
+        n, f, _ = numbering_task(hist[0][1])
+    elif len(hist) > 1 and hist[1][0] == "merge":
         n, f, _ = merge_task(seed)
     else:
         opsl = [tuple(h) for h in hist[1:] if h[0] != "save"]
